@@ -1,0 +1,302 @@
+// Verification hook H1 (`--cfg nextest_verif`): when NEXTEST_VERIF_TAP=<file> is set, append one
+// JSON line per reported event (plain data only). NEXTEST_VERIF_TAP_FAIL_AT=<n> makes the n-th
+// (1-based) event write fail once with an I/O error, to exercise the report-error path.
+
+use super::events::*;
+use crate::{
+    errors::WriteEventError,
+    test_output::{ChildExecutionOutput, ChildOutput, ChildSingleOutput},
+};
+use serde_json::{Value, json};
+use std::{
+    io::Write,
+    sync::atomic::{AtomicUsize, Ordering},
+};
+
+static COUNT: AtomicUsize = AtomicUsize::new(0);
+
+fn single(o: &Option<ChildSingleOutput>) -> Value {
+    match o {
+        Some(o) => json!({
+            "len": o.buf.len(),
+            "xxh64": xxhash_rust::xxh64::xxh64(&o.buf, 0).to_string(),
+        }),
+        None => Value::Null,
+    }
+}
+
+fn output(o: &ChildExecutionOutput) -> Value {
+    match o {
+        ChildExecutionOutput::Output { output, errors, .. } => match output {
+            ChildOutput::Split(s) => json!({
+                "stdout": single(&s.stdout),
+                "stderr": single(&s.stderr),
+                "errors": errors.is_some(),
+            }),
+            ChildOutput::Combined { output } => json!({
+                "combined": single(&Some(output.clone())),
+                "errors": errors.is_some(),
+            }),
+        },
+        ChildExecutionOutput::StartError(_) => json!({ "start_error": true }),
+    }
+}
+
+fn result(r: &ExecutionResult) -> Value {
+    match r {
+        ExecutionResult::Pass => json!({"kind": "pass"}),
+        ExecutionResult::Leak => json!({"kind": "leak"}),
+        ExecutionResult::Fail {
+            abort_status,
+            leaked,
+        } => {
+            #[cfg(unix)]
+            let sig = abort_status.map(|AbortStatus::UnixSignal(s)| s);
+            #[cfg(not(unix))]
+            let sig: Option<i32> = abort_status.map(|_| -1);
+            json!({"kind": "fail", "signal": sig, "leaked": leaked})
+        }
+        ExecutionResult::ExecFail => json!({"kind": "exec-fail"}),
+        ExecutionResult::Timeout => json!({"kind": "timeout"}),
+    }
+}
+
+fn status(s: &ExecuteStatus) -> Value {
+    json!({
+        "attempt": s.retry_data.attempt,
+        "total_attempts": s.retry_data.total_attempts,
+        "result": result(&s.result),
+        "is_slow": s.is_slow,
+        "time_taken_ns": s.time_taken.as_nanos() as u64,
+        "delay_before_start_ns": s.delay_before_start.as_nanos() as u64,
+        "output": output(&s.output),
+    })
+}
+
+fn script_status(s: &SetupScriptExecuteStatus) -> Value {
+    json!({
+        "result": result(&s.result),
+        "is_slow": s.is_slow,
+        "time_taken_ns": s.time_taken.as_nanos() as u64,
+        "env_map": s.env_map.as_ref().map(|m| m.env_map.clone()),
+        "output": output(&s.output),
+    })
+}
+
+fn stats(s: &RunStats) -> Value {
+    json!({
+        "initial_run_count": s.initial_run_count,
+        "finished_count": s.finished_count,
+        "setup_scripts_initial_count": s.setup_scripts_initial_count,
+        "setup_scripts_finished_count": s.setup_scripts_finished_count,
+        "setup_scripts_passed": s.setup_scripts_passed,
+        "setup_scripts_failed": s.setup_scripts_failed,
+        "setup_scripts_exec_failed": s.setup_scripts_exec_failed,
+        "setup_scripts_timed_out": s.setup_scripts_timed_out,
+        "passed": s.passed,
+        "passed_slow": s.passed_slow,
+        "flaky": s.flaky,
+        "failed": s.failed,
+        "failed_slow": s.failed_slow,
+        "timed_out": s.timed_out,
+        "leaky": s.leaky,
+        "exec_failed": s.exec_failed,
+        "skipped": s.skipped,
+    })
+}
+
+fn cancel(c: &Option<CancelReason>) -> Value {
+    match c {
+        Some(c) => json!(c.to_static_str()),
+        None => Value::Null,
+    }
+}
+
+fn unit_state(s: &UnitState) -> Value {
+    match s {
+        UnitState::Running {
+            pid,
+            time_taken,
+            slow_after,
+        } => json!({"state": "running", "pid": pid, "time_taken_ns": time_taken.as_nanos() as u64,
+            "slow_after_ns": slow_after.map(|d| d.as_nanos() as u64)}),
+        UnitState::Exiting {
+            pid,
+            time_taken,
+            waiting_duration,
+            remaining,
+            ..
+        } => json!({"state": "exiting", "pid": pid, "time_taken_ns": time_taken.as_nanos() as u64,
+            "waiting_ns": waiting_duration.as_nanos() as u64, "remaining_ns": remaining.as_nanos() as u64}),
+        UnitState::Terminating(t) => json!({"state": "terminating", "pid": t.pid,
+            "time_taken_ns": t.time_taken.as_nanos() as u64,
+            "reason": format!("{:?}", t.reason), "method": format!("{:?}", t.method),
+            "waiting_ns": t.waiting_duration.as_nanos() as u64,
+            "remaining_ns": t.remaining.as_nanos() as u64}),
+        UnitState::Exited {
+            result: r,
+            time_taken,
+            ..
+        } => json!({"state": "exited", "result": result(r),
+            "time_taken_ns": time_taken.as_nanos() as u64}),
+        UnitState::DelayBeforeNextAttempt {
+            previous_result,
+            waiting_duration,
+            remaining,
+            ..
+        } => json!({"state": "delay", "previous_result": result(previous_result),
+            "waiting_ns": waiting_duration.as_nanos() as u64, "remaining_ns": remaining.as_nanos() as u64}),
+    }
+}
+
+fn describe(event: &TestEvent<'_>) -> Value {
+    let tid = |t: &crate::list::TestInstance<'_>| json!([t.suite_info.binary_id.as_str(), t.name]);
+    let mut v = match &event.kind {
+        TestEventKind::RunStarted {
+            run_id,
+            profile_name,
+            test_list,
+            ..
+        } => json!({"kind": "RunStarted", "run_id": run_id.to_string(), "profile": profile_name,
+            "run_count": test_list.run_count(), "test_count": test_list.test_count()}),
+        TestEventKind::SetupScriptStarted {
+            index,
+            total,
+            script_id,
+            ..
+        } => json!({"kind": "SetupScriptStarted", "index": index, "total": total,
+            "script": script_id.0.as_str()}),
+        TestEventKind::SetupScriptSlow {
+            script_id,
+            elapsed,
+            will_terminate,
+            ..
+        } => json!({"kind": "SetupScriptSlow", "script": script_id.0.as_str(),
+            "elapsed_ns": elapsed.as_nanos() as u64, "will_terminate": will_terminate}),
+        TestEventKind::SetupScriptFinished {
+            index,
+            total,
+            script_id,
+            run_status,
+            ..
+        } => json!({"kind": "SetupScriptFinished", "index": index, "total": total,
+            "script": script_id.0.as_str(), "status": script_status(run_status)}),
+        TestEventKind::TestStarted {
+            test_instance,
+            current_stats,
+            running,
+            cancel_state,
+        } => json!({"kind": "TestStarted", "test": tid(test_instance), "stats": stats(current_stats),
+            "running": running, "cancel_state": cancel(cancel_state)}),
+        TestEventKind::TestSlow {
+            test_instance,
+            retry_data,
+            elapsed,
+            will_terminate,
+        } => json!({"kind": "TestSlow", "test": tid(test_instance), "attempt": retry_data.attempt,
+            "elapsed_ns": elapsed.as_nanos() as u64, "will_terminate": will_terminate}),
+        TestEventKind::TestAttemptFailedWillRetry {
+            test_instance,
+            run_status,
+            delay_before_next_attempt,
+            ..
+        } => json!({"kind": "TestAttemptFailedWillRetry", "test": tid(test_instance),
+            "status": status(run_status),
+            "delay_ns": delay_before_next_attempt.as_nanos() as u64}),
+        TestEventKind::TestRetryStarted {
+            test_instance,
+            retry_data,
+        } => json!({"kind": "TestRetryStarted", "test": tid(test_instance),
+            "attempt": retry_data.attempt, "total_attempts": retry_data.total_attempts}),
+        TestEventKind::TestFinished {
+            test_instance,
+            run_statuses,
+            current_stats,
+            running,
+            cancel_state,
+            junit_store_success_output,
+            junit_store_failure_output,
+            ..
+        } => json!({"kind": "TestFinished", "test": tid(test_instance),
+            "statuses": run_statuses.iter().map(status).collect::<Vec<_>>(),
+            "stats": stats(current_stats), "running": running, "cancel_state": cancel(cancel_state),
+            "junit_store_success_output": junit_store_success_output,
+            "junit_store_failure_output": junit_store_failure_output}),
+        TestEventKind::TestSkipped {
+            test_instance,
+            reason,
+        } => json!({"kind": "TestSkipped", "test": tid(test_instance), "reason": reason.to_string()}),
+        TestEventKind::InfoStarted { total, run_stats } => {
+            json!({"kind": "InfoStarted", "total": total, "stats": stats(run_stats)})
+        }
+        TestEventKind::InfoResponse {
+            index,
+            total,
+            response,
+        } => {
+            let (unit, st) = match response {
+                InfoResponse::SetupScript(r) => {
+                    (json!({"script": r.script_id.0.as_str()}), unit_state(&r.state))
+                }
+                InfoResponse::Test(r) => (
+                    json!({"test": [r.test_instance.binary_id.as_str(), r.test_instance.test_name],
+                        "attempt": r.retry_data.attempt}),
+                    unit_state(&r.state),
+                ),
+            };
+            json!({"kind": "InfoResponse", "index": index, "total": total, "unit": unit, "state": st})
+        }
+        TestEventKind::InfoFinished { missing } => json!({"kind": "InfoFinished", "missing": missing}),
+        TestEventKind::InputEnter { .. } => json!({"kind": "InputEnter"}),
+        TestEventKind::RunBeginCancel {
+            setup_scripts_running,
+            running,
+            reason,
+        } => json!({"kind": "RunBeginCancel", "reason": reason.to_static_str(), "running": running,
+            "setup_scripts_running": setup_scripts_running}),
+        TestEventKind::RunBeginKill {
+            setup_scripts_running,
+            running,
+            reason,
+        } => json!({"kind": "RunBeginKill", "reason": reason.to_static_str(), "running": running,
+            "setup_scripts_running": setup_scripts_running}),
+        TestEventKind::RunPaused {
+            setup_scripts_running,
+            running,
+        } => json!({"kind": "RunPaused", "running": running,
+            "setup_scripts_running": setup_scripts_running}),
+        TestEventKind::RunContinued {
+            setup_scripts_running,
+            running,
+        } => json!({"kind": "RunContinued", "running": running,
+            "setup_scripts_running": setup_scripts_running}),
+        TestEventKind::RunFinished {
+            run_id,
+            elapsed,
+            run_stats,
+            ..
+        } => json!({"kind": "RunFinished", "run_id": run_id.to_string(),
+            "elapsed_ns": elapsed.as_nanos() as u64, "stats": stats(run_stats)}),
+    };
+    v["t_ns"] = json!(event.elapsed.as_nanos() as u64);
+    v
+}
+
+pub(super) fn record(event: &TestEvent<'_>) -> Result<(), WriteEventError> {
+    let Ok(path) = std::env::var("NEXTEST_VERIF_TAP") else {
+        return Ok(());
+    };
+    let n = COUNT.fetch_add(1, Ordering::SeqCst) + 1;
+    let line = describe(event);
+    if let Ok(mut f) = std::fs::OpenOptions::new().create(true).append(true).open(&path) {
+        let _ = writeln!(f, "{line}");
+    }
+    if let Ok(fail_at) = std::env::var("NEXTEST_VERIF_TAP_FAIL_AT") {
+        if fail_at.parse::<usize>().ok() == Some(n) {
+            return Err(WriteEventError::Io(std::io::Error::other(
+                "injected reporter failure (nextest_verif)",
+            )));
+        }
+    }
+    Ok(())
+}
